@@ -39,8 +39,14 @@ def instrument(bld, units, header_path, tag):
             i = ident(u, st['name'])
             n = st['name']
             app.append('static __typeof__(%s) __vf_c18_shadow_%s;' % (n, i))
-            if re.search(r'\\]\\s*$', st['type']):
-                app.append('void __vf_c18_snap_%s(void) { __builtin_memcpy(&__vf_c18_shadow_%s, &%s, sizeof(%s)); }' % (i, i, n, n))
+            if re.search(r'\]\s*$', st['type']):
+                if not re.search(r'\]\s*\[', st['type']) and not st['type'].startswith('struct '):
+                    # one-dimensional array of scalars / pointers: typed element copy
+                    app.append('void __vf_c18_snap_%s(void) { unsigned long k; for (k = 0; k < sizeof(%s) / sizeof(%s[0]); k++) '
+                               '__vf_c18_shadow_%s[k] = %s[k]; }' % (i, n, n, i, n))
+                else:
+                    app.append('void __vf_c18_snap_%s(void) { const unsigned char *a = (const unsigned char *)&%s; unsigned char *b = (unsigned char *)&__vf_c18_shadow_%s; '
+                               'unsigned long k; for (k = 0; k < sizeof(%s); k++) b[k] = a[k]; }' % (i, n, i, n))
             else:
                 app.append('void __vf_c18_snap_%s(void) { __vf_c18_shadow_%s = %s; }' % (i, i, n))
             ty = st['type']
